@@ -47,6 +47,15 @@ func c06Gen(seed uint64, run int, tier string) *Case {
 		c.Stratum = "ufs/directed-" + []string{"", "many-users", "directory-changes-under-a-fid"}[c.Cfg["directed"]]
 		return c
 	}
+	if run%40 == 37 {
+		// a directed session on Ufs with a file system that fails one call in ten to one in four: bursts of requests on one fresh
+		// fid (an open among stats and a read): what one request fails to learn about the file is nothing to the others
+		c.Cfg["ufs"], c.Cfg["gen"], c.Cfg["directed"], c.Cfg["osrate"] = 1, 3, 5, int64(r.Pick(100, 160, 250)) // per mille
+		c.Cfg["msize"], c.Cfg["smsize"], c.Cfg["dotu"], c.Cfg["sdotu"], c.Cfg["wait"] = 8192, 8192, 1, 1, 1
+		c.Cfg["maxsteps"] = 4000000
+		c.Stratum = "ufs/directed-bursts-on-one-fid+os-errors"
+		return c
+	}
 	if run%40 == 23 {
 		// a directed session on Ufs: every request goes out with a Tflush of it in the same write, so that the flush
 		// meets its target at every stage (not started, inside an os call, answering)
@@ -237,6 +246,9 @@ func c06Exec(x *Ctx) {
 	by := newConn()
 	if rate := int(c.cfg("osrate")); rate > 0 {
 		x.S.OSRate, x.S.OSMax = rate, 12
+		if c.cfg("directed") == 5 {
+			x.S.OSMax = 400
+		}
 	}
 	msize := uint32(c.cfg("msize"))
 	dotu := c.cfg("dotu") != 0
@@ -341,6 +353,18 @@ func c06Exec(x *Ctx) {
 						send(Encode(&Msg{Type: Tread, Tag: uint16(60 + k), Fid: 1, Offset: 0, Count: 200}, p.Dotu))
 					}
 					x.Probe("listing-rebuilt-under-os-errors")
+					// and several requests at once on one fresh fid (an open among stats): what one of them learns
+					// about the file, or fails to learn, is nothing to the others
+					for k := 0; k < 4; k++ {
+						f := uint32(40 + k)
+						send(Encode(&Msg{Type: Twalk, Tag: uint16(70 + k), Fid: 0, Newfid: f, Wname: []string{"file"}}, p.Dotu))
+						var burst []byte
+						for j, t := range []uint8{Tstat, Topen, Tstat, Tstat, Tread} {
+							burst = append(burst, Encode(&Msg{Type: t, Tag: uint16(80 + 8*k + j), Fid: f, Mode: 0, Offset: 0, Count: 50}, p.Dotu)...)
+						}
+						send(burst)
+					}
+					x.Probe("burst-on-one-fid-under-os-errors")
 				}
 			}
 		}
@@ -423,6 +447,24 @@ func c06Exec(x *Ctx) {
 				}
 				listed = true
 				x.Probe("entries-removed-while-listings-are-built")
+			case 5:
+				for k := 0; k < 40 && !p.EOF; k++ {
+					f := uint32(400 + k)
+					if rr := ask(&Msg{Type: Twalk, Tag: uint16(100 + k), Fid: 0, Newfid: f, Wname: []string{"file"}}); rr == nil || rr.M == nil || rr.M.Type != Rwalk || len(rr.M.Wqid) != 1 {
+						continue // the walk itself met a failing call
+					}
+					var burst []byte
+					for j, t := range []uint8{Tstat, Topen, Tstat, Tstat, Tread, Tstat} {
+						burst = append(burst, Encode(&Msg{Type: t, Tag: uint16(200 + 8*k + j), Fid: f, Mode: 0, Offset: 0, Count: 50}, p.Dotu)...)
+					}
+					before := len(p.Recv)
+					p.WriteRaw(burst)
+					for y := 0; y < 600 && len(p.Recv) < before+6 && !p.EOF; y++ {
+						rt.Yield(rt.SiteActor)
+					}
+					ask(&Msg{Type: Tclunk, Tag: uint16(150 + k), Fid: f})
+				}
+				x.Probe("bursts-on-one-fid-under-os-errors")
 			case 4:
 				for k := 0; k < 40 && !p.EOF; k++ {
 					tg := uint16(200 + 2*k)
